@@ -46,7 +46,7 @@ def main(argv):
     # memory cap per worker: a runaway generator or student program must not take the machine down
     try:
         import resource
-        cap = int(float(os.environ.get('VERIF_MEM_GB', '3')) * (1 << 30))
+        cap = int(float(os.environ.get('VERIF_AS_GB', '24')) * (1 << 30))   # address space; the driver also polls RSS
         resource.setrlimit(resource.RLIMIT_AS, (cap, cap))
     except Exception:
         pass
